@@ -174,11 +174,34 @@ Definition sweep (w : Z) (gs : list Z) : list Z :=
 (* the packed bool results (21 bits) with Last() above them *)
 Definition row_vector (w : Z) : Z := pred_vector w + 2097152 * st_last w.
 
+(* ---- blocks of consecutive flag states ------------------------------------- *)
+(* The exhaustive walk over the 2^16 flag states is emitted as blocks of consecutive flag states:
+   the group half and the two SetLast arguments of flag state f are derived from a block seed s by
+   the functions below (the harness computes the same values), and the implementation's results
+   of ALL rows of the block are folded into one digest.  A literal CRow per flag state costs Coq
+   more time to parse than to evaluate. *)
+Definition edge_groups : list Z := [0; 65535; 1; 32768; 255; 65280].
+Definition edge_group (i : Z) : Z := nth (Z.to_nat (i mod 6)) edge_groups 0.
+Definition blk_hash (s f : Z) : Z := Z.land (Z.shiftr ((f + 1) * (2 * s + 1) * 40503) 3) 65535.
+(* every fourth flag state gets a boundary group value *)
+Definition blk_group (s f : Z) : Z :=
+  if Z.land f 3 =? 0 then edge_group (Z.shiftr f 2 + s) else blk_hash s f.
+(* SetLast arguments: a hashed value (every eighth state: the current group itself) and a boundary value *)
+Definition blk_args (s f : Z) : list Z :=
+  [if Z.land f 7 =? 1 then blk_group s f else blk_hash (s + 1) f; edge_group (f + s)].
+Definition blk_word (s f : Z) : Z := mk_word (blk_group s f) f.
+(* one row folded into the running digest: the packed results, then every word of the sweep *)
+Definition row_digest (h w : Z) (gs : list Z) : Z := fold_left mix (row_vector w :: sweep w gs) h.
+Definition block_digest (s f0 n : Z) : Z :=
+  fold_left (fun h f => row_digest h (blk_word s f) (blk_args s f)) (zrange (Z.to_nat n) f0) 0.
+
 Inductive case : Type :=
 (* one row of the table: the word, the packed results of every bool-valued method and Last(),
    the group arguments used for SetLast, and the digest of the sweep (every word left by a
    mutating call) *)
 | CRow (w rv : Z) (gs : list Z) (dg : Z)
+(* the n rows of the flag states f0 .. f0+n-1 under block seed s, and the digest of all their results *)
+| CBlock (s f0 n dg : Z)
 (* one mutator call with an arbitrary (multi-bit, possibly > 16 bit) argument: 0 Set 1 Unset 2 SetLast *)
 | CMut (op w v w' : Z)
 (* a sequence of calls on one word: op codes as above plus 3 Tag, 4 ChannelCanStop, 5 SetChannel(true),
@@ -204,6 +227,7 @@ Fixpoint run_ops (w : Z) (ops : list (Z * Z)) : Z * list bool :=
 Definition check (c : case) : bool :=
   match c with
   | CRow w rv gs dg => (row_vector w =? rv) && (digest (sweep w gs) =? dg)
+  | CBlock s f0 n dg => block_digest s f0 n =? dg
   | CMut op w v w' => snd (apply_op w (op, v)) =? w'
   | CSeq w ops w' rets => let '(w2, bs) := run_ops w ops in (w2 =? w') && (pack bs =? rets)
   end.
